@@ -189,7 +189,40 @@ def run(ctx):
     ctx.ob('TABLE', 'validate:region-cap', r_reg, vb.where(), 'count > max_nodes_per_region rejects: %s' % r_reg)
     ctx.ob('TABLE', 'validate:asn-cap', r_asn, vb.where(), 'count > max_nodes_per_asn rejects: %s' % r_asn)
     ctx.ob('TABLE', 'validate:distance', r_dst, vb.where(), 'distance < min_geographic_distance / 2 rejects: %s' % r_dst)
-    ctx.floor('TABLE', 4)
+    # every ordered pair of distinct selected nodes reaches the distance test: inside the innermost loop around the
+    # distance_km call, no path from "next element" back to the loop head avoids both the call and the i == j edge
+    dk = vb.calls(r'::distance_km$')
+    okpair = False
+    why = 'distance_km call not found in validate_selection'
+    wit_ln = None
+    if dk:
+        D = dk[0].bb
+        loops = [(h, ns) for h, ns in L.natural_loops(vb) if D in ns]
+        if loops:
+            h, ns = min(loops, key=lambda x: len(x[1]))
+            starts, same = [], set()
+            for nnode, e in vb.edge_nodes().items():
+                if nnode not in ns and e[0] not in ns:
+                    continue
+                c = F.edge_cond(vb, e)
+                if c.kind == 'disc' and c.variant_is(1) and L.mentions_next(c.expr) is not None and e[0] in ns and vb.dominates(h, e[0]) and \
+                        not any(e[0] in ns2 and len(ns2) < len(ns) for _h2, ns2 in L.natural_loops(vb)):
+                    starts.append(nnode)
+                if c.kind == 'cmp' and c.op == 'Eq' and c.lhs.strip().k in ('let', 'local', 'field', 'param') and c.rhs.strip().k in ('let', 'local', 'field', 'param'):
+                    same.add(nnode)
+            if starts:
+                reach = vb.reachable_from(starts, set([D]) | same)
+                back = [p for p in vb.cfg()[1][h] if p in ns and p in reach]
+                okpair = not back
+                why = ('every iteration of the pair loop evaluates distance_km unless i == j' if okpair else
+                       'the pair loop can move on to the next pair (line %s) without evaluating distance_km for a pair of distinct nodes' % vb.line_of_block(back[0] if back[0] < len(vb.blocks) else vb.cfg()[2][back[0]][0]))
+                wit_ln = None if okpair else vb.line_of_block(back[0] if back[0] < len(vb.blocks) else vb.cfg()[2][back[0]][0])
+            else:
+                why = 'cannot find the element-yielding edge of the pair loop (fail closed)'
+        else:
+            why = 'distance_km is not evaluated inside a loop over the selection'
+    ctx.ob('TABLE', 'validate:every-pair-measured', okpair, vb.where(wit_ln), why, entry=vb.id)
+    ctx.floor('TABLE', 5)
 
     # ---- 5. no panic sites in the algorithm bodies
     n = 0
